@@ -5,6 +5,7 @@ import Proofs.C15.OpsCount
 import Proofs.C15.SatCond
 import Proofs.C15.Accept
 import Proofs.C15.SatSound
+import Proofs.C15.BoundSound
 import Model.C15.Decode
 /-!
 # C15 — miniscript typing, compilation, read-back and satisfaction are consistent
@@ -183,8 +184,9 @@ theorem satisfaction_accepted_partial (E : EvalEnv) (hsig0 : ∀ k, E.sigOK k []
     expression of S1 is a listed satisfaction; hence, for a typed top-level "B" that
     `is_within_resource_limits` with `max_ops` defined, the interpreter ACCEPTS the compiled script on
     it (`accepts`: T3's run plus the op-count, script-size, element-size and element-count limits).
-    The sizes of the witness (≤ 520 bytes an element, ≤ 1000 elements) are hypotheses: that they
-    follow from `max_witness_size` / `max_stack_items` is NOT proved. -/
+    The interpreter's own limits on the witness (≤ 520 bytes an element, ≤ 1000 elements) are
+    hypotheses here; `satisfy_within_bounds_partial` bounds the witness by `max_stack_items` /
+    `max_witness_size`. -/
 theorem satisfy_accepted_partial (E : EvalEnv) (hsig0 : ∀ k, E.sigOK k [] = false) (ctx : Ctx)
     (env : SatEnv) (hE : EnvOK E ctx env) (h160 : Bytes → Bytes)
     (hH : ∀ k, E.hashF .hash160 k = h160 k) (hh : ∀ b, (h160 b).length = 20) (n : Ms)
@@ -196,6 +198,23 @@ theorem satisfy_accepted_partial (E : EvalEnv) (hsig0 : ∀ k, E.sigOK k [] = fa
   have hS := satisfy_in_Sat E ctx env hE n (inS1_of_s1Typed ctx n h) hz w hsat
   exact ⟨hS, accepts_of_sat E hsig0 ctx h160 hH hh n h hshape hB hlim hops _ hS
     (by intro e he; exact h520 e (List.mem_reverse.mp he)) (by simpa using h1000)⟩
+
+/-- T4 (bounds), covered set S1: whenever the modelled `satisfy` returns a witness `w` for a typed,
+    shaped top-level "B" — the spender's signatures being no longer than the context's largest
+    (72 / 65 bytes) and the chosen candidate being one of BIP379's canonical options
+    (`nonCanonical = false`: the `non_canonical` mark of the source, which `satisfy` itself does not
+    read) — `w` has at most `max_stack_items` elements and `max_witness_size` bytes (each element
+    with its length byte, as the source counts), and the script's counted op codes are at most
+    `max_ops` (S1 has no OP_CHECKMULTISIG, so these are all the ops an execution is charged). -/
+theorem satisfy_within_bounds_partial (ctx : Ctx) (env : SatEnv) (hS : SigsSmall ctx env)
+    (h160 : Bytes → Bytes) (n : Ms) (h : s1Typed ctx n = true) (hs : shaped ctx n = true)
+    (hB : (typeOf ctx n).B = true) (w : List Bytes) (hsat : satisfy ctx env n = .ok w)
+    (hcan : (inputs ctx env n).sat.nonCanonical = false) :
+    (∃ m, maxStackItems ctx n = some m ∧ (w.length : Int) ≤ m) ∧
+    (∃ b, maxWitnessSize ctx n = some b ∧ wsum w ≤ b) ∧
+    (∀ o, maxOps ctx n = some o → countNP (opsOf ctx h160 false n) ≤ o) := by
+  obtain ⟨hb, hm⟩ := satisfy_within_bounds ctx env hS n h hs hB w hsat hcan
+  exact ⟨hm, hb, fun o ho => max_ops_ge_script_ops ctx h160 n false o ho⟩
 
 /-- T4 (refusal half), about the model of the satisfier itself (`Model/C15/Satisfy.lean`:
     `_computed_input`, `_better`, `satisfy`, tied by the `sat` stream): when the spending condition
